@@ -253,6 +253,10 @@ def check_repl(c, ctx, variant='asan'):
     if status == 'timeout':
         ctx.inconclusive += 1
         return
+    if status.startswith('died:') and int(status[5:]) > 0 and err.strip() and not any(p_ in err for p_ in ('AddressSanitizer', 'runtime error:', 'terminate called', 'Assertion')):
+        # the tool ended by itself with an exit status and a diagnostic (e.g. exit(1) on an unparsable expression): allowed by the statement
+        ctx.count('repl-exited-with-diagnostic')
+        return
     if status.startswith('died'):
         # which command killed it
         k = max(0, len(blocks) - 2)
